@@ -489,7 +489,6 @@ func zzEventMachine(accounting bool) {
 		case 4: // a stream filter answers the request itself
 			if kf.handler != nil {
 				kf.handler.TerminateStream(504)
-				verif.Cover("terminate")
 			}
 		case 0: // the upstream answers
 			if ur := ds.upstreamRequest; ur != nil && ur.requestSender != nil {
